@@ -495,7 +495,11 @@ def releaseSelf (s : State) (k : Nat) : Option State :=
   | none => none                                   -- panic!("key should only be claimed/released once")
   | some st =>
     if st.claimedTwice then
-      some { s with sync := upd s.sync k (some { st with claimedTwice := false, owner := .transferred }) }
+      -- hand the re-claimed key back to its transfer target; since /repo commit 451fce7 the threads that
+      -- started waiting on it meanwhile are woken (`if mem::take(&mut anyone_waiting) { unblock… }`)
+      let st' : SyncState := { st with claimedTwice := false, owner := .transferred, anyoneWaiting := false }
+      let s1 := { s with sync := upd s.sync k (some st') }
+      if st.anyoneWaiting then unblockRuntimesBlockedOn s1 k .completed else some s1
     else release { s with sync := upd s.sync k none } k st .completed
 
 inductive TransferAnswer
@@ -806,6 +810,30 @@ def checkW4 (s : State) : Bool :=
 /-- W5: a thread with an unconsumed result is not blocked. -/
 def checkW5 (s : State) : Bool :=
   (ids s).all fun t => (s.results t).isNone || (s.edges t).isNone
+
+/-- The thread that `thread_id_of_transferred_query` resolves a transferred key to. -/
+def resolvedOwner (s : State) (k : Nat) : Option Nat :=
+  match threadIdOfTransferredQuery s k none with
+  | some (some t) => some t
+  | _ => none
+
+/-- W3 with resolved owners: every dependent of `k` points at the thread that owns `k` —
+    `Thread(u)` ⇒ `u` (while a transferred key is re-claimed, `claimed_twice`, older dependents may
+    still point at the resolved owner of its `transferred` chain); `Transferred` ⇒ the resolved owner
+    (and the key must still have its `transferred` entry); no sync entry ⇒ no dependents.
+    Keys in `skip` are exempt (the trace driver passes the keys whose release / transfer is in flight
+    between its sync-table line and its graph line). -/
+def checkW3 (s : State) (skip : List Nat) : Bool :=
+  (ids s).all fun k =>
+    skip.contains k || (s.qdeps k).all fun t =>
+      match s.sync k with
+      | none => false
+      | some st =>
+        match st.owner with
+        | .thread u =>
+          s.edges t == some u ||
+            (st.claimedTwice && (s.transferred k).isSome && s.edges t == resolvedOwner s k)
+        | .transferred => (s.transferred k).isSome && s.edges t == resolvedOwner s k
 
 /-- W6 (state part): a key without sync entry has no dependents. -/
 def checkW6 (s : State) : Bool :=
